@@ -5,6 +5,7 @@ From AV Require Import Generated.Table Spec.Utf8 Spec.Vt Spec.Strip Spec.Sgr Mod
   Model.Wincon Proofs.TableFacts Proofs.ParserSim Proofs.StripMachine Proofs.StripSim Proofs.StripStr Proofs.WinconRuns
   Generated.StripFn Proofs.StripGen Generated.WinconFn Proofs.WinconGen.
 From AV Require Import Spec.Io Model.Stream Generated.StreamFn Proofs.StreamGen.
+From AV Require Import Model.Utf8parse Model.Imp Generated.Utf8parseFn Proofs.Utf8parseGen.
 Import ListNotations.
 Local Open Scope N_scope.
 
@@ -248,3 +249,20 @@ Theorem c03_translated_stream_is_model :
   match g_ss_run x ops with Some (x1, rs) => Some (ss_state x1, ss_raw x1, rs) | None => None end
   = run_ops b MStrip (ss_state x) (ss_raw x) ops.
 Proof. exact translated_stream_is_model. Qed.
+
+(* ==== the third-party decoder `utf8parse` ====================================================
+   Generated/Utf8parseFn.v is written on every run by tools/gen_fn_utf8parse.py from the registry
+   source of the `utf8parse` version <repo>/Cargo.lock pins (the unpacked source is compared with the
+   archive whose sha256 is the lock file's checksum, and with what `cargo metadata` says the harness
+   crates build).  `State::advance`, `Parser::{new, perform_action, advance}` and the derived Default
+   are the hand model Model/Utf8parse.v -- the decoder every theorem above goes through -- for EVERY
+   state, accumulated code point and byte.  A `Receiver` is the list of calls it gets. *)
+Theorem c03_translated_utf8parse_advance :
+  forall p r b, g_u8_parser_advance p r b =
+    Some (fst (u8_parser_advance p b), r ++ u8_events (snd (u8_parser_advance p b))).
+Proof. exact g_u8_parser_advance_eq. Qed.
+
+(* the decoder carried from one chunk to the next: a byte string through the translated decoder *)
+Theorem c03_translated_utf8parse_run :
+  forall bs p r, g_u8_run p r bs = Some (fst (u8_model_run p bs), r ++ snd (u8_model_run p bs)).
+Proof. exact translated_run_is_model. Qed.
